@@ -201,26 +201,28 @@ class XCubeMatchingDecoder(BaseDecoder):
                            'z': Toric2DCode(Lx, Ly)
                            }
 
-        # Weight the 2D toric code matching decoders
-        # Only works for Z biased noise and z-axis deformation
+        # Weight the 2D toric code matching decoders: an edge of the plane
+        # normal to a given axis stands for the 3D qubits along one of the
+        # two other axes, and gets the weight of those qubits
         weights_X, _ = self.error_model.get_weights(self.code,
                                                     self.error_rate)
 
-        wz = weights_X[self.code.qubit_index[(0, 0, 1)]]
-        wxy = weights_X[self.code.qubit_index[(1, 0, 0)]]
+        w = {'x': weights_X[self.code.qubit_index[(1, 0, 0)]],
+             'y': weights_X[self.code.qubit_index[(0, 1, 0)]],
+             'z': weights_X[self.code.qubit_index[(0, 0, 1)]]}
+
+        # 3D axes of the 2D x and y edges of each plane
+        plane_axes = {'x': ('y', 'z'), 'y': ('x', 'z'), 'z': ('x', 'y')}
 
         weights = {
-            'x': np.array([wxy if self.toric_code['x'].qubit_axis(loc) == 'x'
-                           else wz
-                           for loc in self.toric_code['x'].qubit_coordinates]
-                          ),
-            'y': np.array([wxy if self.toric_code['y'].qubit_axis(loc) == 'x'
-                           else wz
-                           for loc in self.toric_code['y'].qubit_coordinates]
-                          ),
-            'z': np.array([wxy
-                           for _ in self.toric_code['z'].qubit_coordinates]
-                          )}
+            plane: np.array([
+                w[plane_axes[plane][0]]
+                if self.toric_code[plane].qubit_axis(loc) == 'x'
+                else w[plane_axes[plane][1]]
+                for loc in self.toric_code[plane].qubit_coordinates
+            ])
+            for plane in ['x', 'y', 'z']
+        }
 
         self.matching_decoder = {axis: MatchingDecoder(self.toric_code[axis],
                                                        self.error_model,
